@@ -51,7 +51,7 @@ INVALID_FLAGS = [["--rust-target", "1.20"], ["--no-such-flag"], ["--default-enum
                  ["--rust-target", "2.0"], ["--rust-target", "1.x"]]
 CLANG_ARG_FAULTS = [["-std=bogus"], ["-x", "nonsense"], ["--target=foo-bar-baz"], ["-march=bogus"], ["-"],
                     ["-Xclang", "-bogus"]]
-TIMEOUT = 60
+TIMEOUT = 60          # per invocation; run() lowers it in the quick tier
 NOBODY = ["setpriv", "--reuid=65534", "--regid=65534", "--clear-groups"]
 
 
@@ -108,34 +108,56 @@ def norm_loc(loc, msg=""):
     return loc + (":" + slug if slug else "")
 
 
-def _spawn(jobs, threads, name, timeout, prefix=()):
-    """One `bvdrive run` process; returns ({id: result}, how) with how in ok|died:<rc>|timeout."""
+def _spawn(jobs, threads, name, timeout, prefix=(), stall=None):
+    """One `bvdrive run` process; returns ({id: result}, how, stderr tail) with how in ok|died:<rc>|timeout.
+    stall: give up when no job finishes for that many seconds (a hanging job)."""
+    import select
     d = C.workdir(name, clean=False)
-    jf = os.path.join(d, "jobs-%d-%d.json" % (os.getpid(), random.getrandbits(40)))
+    tag = "%d-%d" % (os.getpid(), random.getrandbits(40))
+    jf = os.path.join(d, "jobs-%s.json" % tag)
+    ef = os.path.join(d, "stderr-%s.txt" % tag)
     with open(jf, "w") as f:
-        json.dump({"threads": threads, "jobs": jobs}, f)
+        json.dump({"threads": threads, "jobs": [{k: v for k, v in j.items() if k not in ("prefix", "risky")} for j in jobs]}, f)
     env = dict(os.environ)
     for k in ("BINDGEN_VERIF_LOG", "TARGET", "BINDGEN_EXTRA_CLANG_ARGS", "RUST_BACKTRACE"):
         env.pop(k, None)
-    p = subprocess.Popen(list(prefix) + [C.BVDRIVE, "run", jf], stdout=subprocess.PIPE, stderr=subprocess.PIPE, text=True,
-                         stdin=subprocess.DEVNULL,
-                         env=env, cwd=d, errors="replace")
-    try:
-        so, se = p.communicate(timeout=timeout)
+    with open(ef, "wb") as efh:
+        p = subprocess.Popen(list(prefix) + [C.BVDRIVE, "run", jf], stdout=subprocess.PIPE, stderr=efh,
+                             stdin=subprocess.DEVNULL, env=env, cwd=d)
+        fd = p.stdout.fileno()
+        buf, start, last, how = b"", time.time(), time.time(), None
+        while True:
+            r, _, _ = select.select([fd], [], [], 0.5)
+            if r:
+                chunk = os.read(fd, 1 << 16)
+                if not chunk:
+                    break
+                buf += chunk
+                last = time.time()
+            elif p.poll() is not None:
+                continue_reading = os.read(fd, 1 << 20)
+                buf += continue_reading
+                if not continue_reading:
+                    break
+            now = time.time()
+            if now - start > timeout or (stall and now - last > stall):
+                p.kill()
+                how = "timeout"
+                break
+        p.wait()
+    if how is None:
         how = "ok" if p.returncode == 0 else "died:%d" % p.returncode
-    except subprocess.TimeoutExpired:
-        p.kill()
-        so, se = p.communicate()
-        how = "timeout"
     res = {}
-    for line in so.splitlines():
+    for line in buf.decode("utf-8", "replace").splitlines():
         try:
             r = json.loads(line)
             res[r["id"]] = r
         except Exception:
             pass
+    se = open(ef, errors="replace").read()[-1500:]
     os.remove(jf)
-    return res, how, se[-1500:]
+    os.remove(ef)
+    return res, how, se
 
 
 def drive(jobs, name, threads=12, batch=130):
@@ -150,7 +172,7 @@ def drive(jobs, name, threads=12, batch=130):
     parts = [jobs[i:i + batch] for i in range(0, len(jobs), batch)] + [risky[i:i + 10] for i in range(0, len(risky), 10)]
 
     def one(part):
-        return part, _spawn(part, 5, name, timeout=180 + 2 * len(part))
+        return part, _spawn(part, 5, name, timeout=180 + 2 * len(part), stall=TIMEOUT + 5)
     with cf.ThreadPoolExecutor(3) as ex:
         for part, (r, how, se) in ex.map(one, parts):
             results.update(r)
@@ -427,8 +449,8 @@ def build_inputs(base, rnd, tier):
             cases.append({"id": os.path.basename(hp), "args": ["bindgen", "--formatter=none", hp] + std, "callbacks": None,
                           "header": hp, "text": text, "shape": "nesting:%s@%d" % (shape, dep), "facts": dict(facts0),
                           "deep": True})
-    # every edge literal in every constant-evaluating context
-    for i, (shape, ext, text) in enumerate(G.literal_contexts()):
+    # every edge literal in every constant-evaluating context; annotations in odd places
+    for i, (shape, ext, text) in enumerate(G.literal_contexts() + G.annotations()):
         hp = os.path.join(d, "l-%04d%s" % (i, ext))
         with open(hp, "w") as f:
             f.write(text)
@@ -537,13 +559,23 @@ def reduce_witness(c, rawkey, base, budget=90):
     return "\n".join(lines) + "\n"
 
 
-def vkey(v, shape):
+def fail_shape(c):
+    """What kind of input made the process hang / die (for keys of failures without a panic location)."""
+    m = re.search(r"rustbindgen\s+(\w+)", c["text"])
+    if m:
+        return "annotation-" + m.group(1)
+    if c["shape"].startswith(("mutant:", "prog-mutant:")):
+        return c["shape"].split(":")[0] + ":" + c.get("base", "generated-program")
+    return re.sub(r"@\d+$", "", c["shape"])
+
+
+def vkey(v, c):
     """Violation key: identifies the failing call site / shape so that known findings can be matched."""
     got = v["got"]
     if got == "panic" or v["key"].startswith("panic:"):
         return v["key"] or "panic:unknown"
     if got in ("hang", "signal"):
-        return "%s:%s" % (v["key"] or got, re.sub(r"@\d+$", "", re.sub(r"^(mutant|prog-mutant):.*", r"\1", shape)))
+        return "%s:%s" % (v["key"] or got, fail_shape(c))
     if v["key"]:
         return v["key"]
     f = v["facts"]
@@ -563,6 +595,8 @@ def run(res, tier):
         "for whom such a file is still readable by the OS",
         "mutants are sampled (seeded), not enumerated by the specification",
     ]
+    global TIMEOUT
+    TIMEOUT = 60 if tier == "thorough" else 20
     C.build()
     model(res)
     rnd = random.Random(C.seed() * 104729 + 12)
@@ -605,7 +639,7 @@ def run(res, tier):
     # ---- library driver ------------------------------------------------------------------------
     t1 = time.time()
     jobs = [{"id": c["id"], "args": c["args"], "callbacks": c.get("callbacks"), "prefix": list(c.get("prefix", ())),
-             "risky": c["shape"].startswith("literal-in-") or c["shape"].endswith("literal-subst")}
+             "risky": c["shape"].startswith(("literal-in-", "annotation-")) or c["shape"].endswith("literal-subst")}
             for c in cases if c.get("lib", True)]
     out, retried = drive(jobs, "c12-drive")
     obs = []
@@ -651,7 +685,7 @@ def run(res, tier):
     nreduced = 0
     for v in viol:
         c = byid[v["case"]]
-        k = vkey(v, c["shape"])
+        k = vkey(v, c)
         w = seen.get(k)
         if w is None or len(c["text"]) < len(w[1]["text"]):
             seen[k] = (v, c)
@@ -676,7 +710,8 @@ def run(res, tier):
     # lib vs CLI agreement (shape)
     lib_by = {o["case"]: o["outcome"] for o in obs if o["ch"] == "lib"}
     for o in obs:
-        if o["ch"] == "cli" and o["case"] in lib_by and lib_by[o["case"]] != o["outcome"]:
+        if o["ch"] == "cli" and o["case"] in lib_by and lib_by[o["case"]] != o["outcome"] and \
+                not (lib_by[o["case"]] == "signal" and o["outcome"] == "panic"):     # a panic that aborts the process
             res.drift.append("library driver and CLI differ on %s: %s vs %s" % (o["case"], lib_by[o["case"]], o["outcome"]))
 
     # as root a mode-000 header is readable by the OS; the code answers from the mode bits
